@@ -516,6 +516,12 @@ func checkC18(w *World, r *Report) {
 		}
 	}
 
+	r.Rule("R18.7", "an upstream address counts as an encrypted transport only over a TLS-built carrier or under a test for a TLS scheme (+tls, https, wss): never for a scheme that merely looks like one", 5)
+	if sites, _ := findConnectSites(w); len(sites) > 0 {
+		c04CorrelationClient(w, r, "R18.7", sites)
+	} else {
+		r.Undecided("R18.7", "sites", "-", "no upstream connect site found")
+	}
 	c18PlusTls(w, r, tlsTypes)
 	c18Addr(w, r, byFn)
 	c18OneDispatcher(w, r, sws)
